@@ -69,6 +69,17 @@ add("C10", "exploration",
     "Table perturbations below ~1e-10 relative are below the resolution (stated limit). Trusts nalgebra's symmetric eigen-solver for the independent rules.",
     "DESIGN.md 4/C10")
 
+add("C15", "exploration",
+    "property-based testing (proptest): grid-constructed separated nodes, arbitrary and polynomial-sampled data, permuted listings; oracles: degree bound, node residuals with a stated growth allowance, uniqueness via the harness-computed (confluent) Vandermonde inverse, permutation metamorphic relation",
+    "Generated node sets (1-8 nodes, real and complex) with data either arbitrary or sampled from a polynomial within the degree bound; the interpolant must satisfy the degree bound, reproduce values (and derivatives) at every node, coincide with the sampled polynomial up to the conditioning of the nodes, be independent of the listing order, and reject mismatched slice lengths.",
+    "Exploration only. The growth allowance G(n) for the divided-difference recurrences is large at 7-8 Hermite nodes (the routine is genuinely lossy there), so only defects of relative size >> 1e-6 are visible at that end.",
+    "DESIGN.md 4/C15")
+add("C16", "exploration",
+    "property-based differential testing (proptest) against an independent dense LU solve of the spline equations; direct checks of interpolation, C2 continuity (second derivative recovered from values and slopes), end conditions, cubic/line reproduction, error on invalid input",
+    "Generated knot sets (2-40 knots, spacing ratio up to 50, real and complex ordinates, free and clamped) are compared on every interval at both end knots (from inside) and 8 interior points, values and slopes, with an independently solved reference spline (512 eps K(x); measured margin > 10x).",
+    "Exploration only. Equal knots are not generated (validity undefined).",
+    "DESIGN.md 4/C16")
+
 ALL = ["C%02d" % i for i in range(1, 21)]
 
 def main():
